@@ -96,3 +96,6 @@ pub(super) fn build_preservation_map(ctx: &Context, records: &[Record]) -> Prese
         tag_sets: build_tag_sets(records),
     }
 }
+
+#[cfg(kani)]
+pub(crate) use self::substitution_matrix::verif_kani as verif_kani_sm;
